@@ -497,38 +497,27 @@ func substringFunc(arg1, arg2, arg3 query) func(query, iterator) interface{} {
 			panic(errors.New("substring() function first argument type must be number"))
 		}
 		// fix https://github.com/antchfx/xpath/issues/109
-		start = math.Round(start)
-		if start > float64(len(m)) {
+		// The result holds the characters at the positions p (counted from 1)
+		// with round(start) <= p < round(start) + round(length), where round is
+		// XPath's round(): half-way cases go towards positive infinity.
+		first := math.Floor(start + 0.5)
+		last := math.Inf(1)
+		if arg3 != nil {
+			if length, ok = functionArgs(arg3).Evaluate(t).(float64); !ok {
+				panic(errors.New("substring() function second argument type must be number"))
+			}
+			last = first + math.Floor(length+0.5)
+		}
+		if first < 1 {
+			first = 1
+		}
+		if max := float64(len(m) + 1); last > max {
+			last = max
+		}
+		if !(first < last) { // also when either bound is NaN
 			return ""
 		}
-		if arg3 == nil {
-			if start <= 0 {
-				return m
-			}
-			return m[int(start)-1:]
-		}
-
-		if length, ok = functionArgs(arg3).Evaluate(t).(float64); !ok {
-			panic(errors.New("substring() function second argument type must be number"))
-		}
-		length = math.Round(length)
-		if length <= 0 {
-			return ""
-		}
-		if length > float64(len(m)) {
-			length = float64(len(m))
-		}
-		if start < 0 {
-			length = length - math.Abs(start)
-			if length <= 1 {
-				return ""
-			}
-			return m[:int(length-1)]
-		}
-		if start == 0 {
-			return m[:int(length-1)]
-		}
-		return m[int(start-1):int(length+start-1)]
+		return m[int(first)-1 : int(last)-1]
 	}
 }
 
